@@ -6,6 +6,9 @@ import GtModel.Model.Formats
 import GtModel.Model.Assign
 import GtModel.Model.Bounded
 import GtModel.Model.Search
+import GtModel.Model.Heap
+import GtModel.Model.Expr
+import GtModel.Model.ExprHost
 open Lean GtModel
 
 namespace Driver
@@ -20,6 +23,9 @@ def table : List (String × Handler) := [
   ("formats", Formats.formatsHandler),
   ("assign", Assign.assignHandler),
   ("bounded", GtModel.Bounded.boundedHandler),
+  ("heap", Heap.heapHandler),
+  ("heapsel", Heap.selHandler),
+  ("expr", Expr.exprHandler),
   ("errorpath", Cli.errorPathHandler),
   ("editmatrix", EditMatrix.editMatrixHandler),
   ("strscript", EditMatrix.strScriptHandler)
